@@ -34,7 +34,7 @@ CHECKS = {
     "C05": dict(
         technique="property-based testing over generated aromatic systems and atom orders + enumeration of small graphs for the matching routine; oracle = needs-pi classification + exact perfect matching",
         level="exploration",
-        text="Fused/bridged/cage aromatic systems with standard and extended atom kinds in several atom orders: acceptance must equal existence of a perfect matching of the needs-pi set, accepted outputs must carry exactly one in-system double bond on each needs-pi atom, and results must be order independent; the matching routine itself is checked on enumerated and random graphs.",
+        text="Fused/bridged/cage aromatic systems with standard and extended atom kinds in several atom orders: acceptance must equal existence of a perfect matching of the needs-pi set, accepted outputs must carry exactly one in-system double bond on each needs-pi atom, and results must be order independent; the matching routine itself is checked on all small graphs and on batches of random cubic graphs / relabelled cages under a watchdog.",
         note="Trusted: R4 (vf/refkek.py) valence table for the standard kinds, exact matching (bitmask DP / blossom), R1.",
         ref="6/C05"),
     "C06": dict(
@@ -82,7 +82,7 @@ CHECKS = {
     "C13": dict(
         technique="metamorphic property-based testing: [nop] insertion at generated position sets, padding round trip through the encoding utilities",
         level="exploration",
-        text="decoder outcome (string or DecoderError) must be equal for a string and its [nop]-decorated variants, with insertion biased to index positions, inside branches and around dots.",
+        text="decoder outcome (string or DecoderError; with attribute=True also the attribution) must be equal for a string and its [nop]-decorated variants, with insertion biased to index positions, inside branches and around dots; padding round trip through the encoding utilities.",
         note="R2 is used only to classify where insertions land.",
         ref="6/C13"),
     "C14": dict(
@@ -94,7 +94,7 @@ CHECKS = {
     "C15": dict(
         technique="property-based testing against a 15-line reference model of the label / one-hot encodings",
         level="exploration",
-        text="Generated vocabularies, strings, pad lengths, enc types and batches; all four functions compared with the reference model, failure clauses must raise.",
+        text="Generated vocabularies, strings, pad lengths, enc types and batches; all four functions compared with the reference model, failure clauses (also at later batch positions) must raise, editing a returned encoding must not change later results.",
         note="Trusted: the reference model in vf/props/c15.py.",
         ref="6/C15"),
     "C16": dict(
@@ -116,9 +116,9 @@ CHECKS = {
         note="Trusted: the legacy->modern map of CHANGELOG.md as encoded in vf/props/c18.py, R2 for 'reached'.",
         ref="6/C18"),
     "C19": dict(
-        technique="schedule fuzzing: generated opcode-level thread schedules run by a deterministic scheduler (sys.settrace) + free-running stress; oracle = results of the same calls run alone",
+        technique="schedule fuzzing: generated opcode-level thread schedules run by a deterministic scheduler (sys.settrace) + free-running stress + cold-start subprocesses; oracle = results of the same calls run alone",
         level="exploration",
-        text="2-4 concurrent encoder/decoder jobs under generated interleavings at bytecode granularity inside selfies frames; every job's result must equal its serial result.",
+        text="2-4 concurrent encoder/decoder jobs under generated interleavings at bytecode granularity inside selfies frames (incl. jobs that meet never-seen symbols and never-requested ring sizes inside the interleaving), free-running stress threads, and cold-start runs (fresh interpreters whose first calls are made by several threads at once); every job's result must equal its serial result, the documented index code, and a serial run in another process.",
         note="Switches are forced only at opcode boundaries of frames under /repo/selfies; C internals assumed atomic under the GIL.",
         ref="6/C19"),
 }
